@@ -11,6 +11,16 @@ TTC_DEF = [None,
            {'type': 'function', 'name': 'Enabled', 'arguments': []},
            {'type': 'function', 'name': 'Disabled', 'arguments': []},
            {'type': 'function', 'name': 'Bernoulli', 'arguments': [0.5]}]
+# TTCs of a defense that are not a single distribution (no key 'name'): a sum / product of distributions, a number
+# (knob `composite_def_ttc`, used by C06: the class factory must give such a defense the default 0, fix 6addd5c)
+TTC_DEF_COMPOSITE = [
+    {'type': 'addition', 'lhs': {'type': 'function', 'name': 'Exponential', 'arguments': [1.0]},
+     'rhs': {'type': 'function', 'name': 'Exponential', 'arguments': [2.0]}},
+    {'type': 'multiplication', 'lhs': {'type': 'function', 'name': 'Enabled', 'arguments': []},
+     'rhs': {'type': 'number', 'value': 2.0}},
+    {'type': 'number', 'value': 0.5},
+    {'type': 'subtraction', 'lhs': {'type': 'function', 'name': 'Bernoulli', 'arguments': [0.5]},
+     'rhs': {'type': 'function', 'name': 'Enabled', 'arguments': []}}]
 TTC_STEP = [None, None,
             {'type': 'function', 'name': 'Exponential', 'arguments': [0.1]},
             {'type': 'addition', 'lhs': {'type': 'function', 'name': 'Exponential', 'arguments': [0.1]},
@@ -246,10 +256,11 @@ class LangGen:
                 meta = {}
                 if r.random() < 0.3: meta['user'] = f'info {sn}'
                 if r.random() < 0.2: meta['mitre'] = 'T1' + str(r.randint(100, 999))
+                composite = ty == 'defense' and self.k.get('composite_def_ttc', 0) > 0 and r.random() < self.k['composite_def_ttc']
                 self.steps[nm].append({'name': sn, 'meta': meta, 'type': ty,
                                        'tags': r.choice([[], [], ['hidden'], ['suppress'], ['a', 'b']]),
                                        'risk': r.choice([None, None, {'isConfidentiality': True, 'isIntegrity': False, 'isAvailability': True}]),
-                                       'ttc': copy.deepcopy(r.choice(TTC_DEF if ty == 'defense' else TTC_STEP)) if ty not in ('exist', 'notExist') else None,
+                                       'ttc': copy.deepcopy(r.choice(TTC_DEF_COMPOSITE if composite else TTC_DEF if ty == 'defense' else TTC_STEP)) if ty not in ('exist', 'notExist') else None,
                                        'requires': None, 'reaches': None})
         # variables (acyclic: may use variables of ancestors and earlier ones of the same asset).  A name may be used
         # again by an asset that is neither an ancestor nor a descendant of a declaring asset (no shadowing along a
